@@ -893,6 +893,9 @@ def allocation_state_belongs_to_a_record(ctx, p):
                 fl = lib.receiver_fields(b, t, 0)
                 if '.ValueTable.filled' in fl or '.ValueTable.last_removed' in fl:
                     hit = True
+        # (a closure counts as the function it is written in: `(0..n).map(|_| ..).collect()` instead of a loop)
+        if hit and '{closure' in b.path and F.body(lib.strip_closures(b.path)) is not None:
+            b = F.body(lib.strip_closures(b.path))
         if not hit or b.path in seen:
             continue
         seen.add(b.path)
@@ -1213,7 +1216,14 @@ def loop_iterates_ordered(b, lp):
     """the sequence a `for` loop walks has an order fixed by the program: an ordered map, or a collection that was sorted (in place
     or by an adaptor) on every path to the loop"""
     th = b.term(lp['head'])
-    sl = backward_slice(b, [op_place(th['a'][0])]) if th['a'] and op_place(th['a'][0]) is not None else None
+    return sequence_is_ordered(b, th['a'][0] if th['a'] else None, lp['head'])
+
+
+def sequence_is_ordered(b, operand, site):
+    """the sequence behind `operand` (the iterator a loop head or an adaptor such as try_for_each consumes at block `site`) has an
+    order fixed by the program"""
+    lp = {'head': site}
+    sl = backward_slice(b, [op_place(operand)]) if operand is not None and op_place(operand) is not None else None
     if sl is None:
         return False
     if any(re.search(r'::sort(_by|_by_key|_unstable|_unstable_by|_unstable_by_key|_by_cached_key)?$|BTreeMap|BTreeSet|BinaryHeap', c) for c in sl.calls):
@@ -1238,7 +1248,21 @@ def header_slot_written_last(ctx, p):
         return
     wr = b.call_sites('file::TableFile::write_at')
     loops = [lp for lp in lib.for_loops_over(b) if any(x in b.reachable_from([lp['some']], removed={lp['head']}) for x in wr)]
-    ctx.ob(p + 'h0 init-write-loop', 'anchor', b.path, 'do_init_with_entry writes the planned slots to the file in a loop', len(wr) >= 1 and len(loops) >= 1, 'write sites %s loops %d' % (wr, len(loops)))
+    # the loop may be an iterator adaptor that is handed a closure with the write (`slots.into_iter().try_for_each(|..| write_at(..))`)
+    adaptors = []
+    if not loops:
+        for cl in lib.bodies_of(F, b.path)[1:]:
+            if cl.call_sites('file::TableFile::write_at'):
+                for pb, bi in lib.closure_use_sites(F, cl):
+                    if pb is b and call_matches(b.term(bi), ['re:Iterator::(try_for_each|for_each|try_fold|fold|map|all|any)$']):
+                        adaptors.append(bi)
+                        wr = wr + cl.call_sites('file::TableFile::write_at')
+    ctx.ob(p + 'h0 init-write-loop', 'anchor', b.path, 'do_init_with_entry writes the planned slots to the file in a loop', len(wr) >= 1 and len(loops) + len(adaptors) >= 1, 'write sites %s loops %d' % (wr, len(loops) + len(adaptors)))
+    for bi in adaptors[:1]:
+        ok = sequence_is_ordered(b, b.term(bi)['a'][0], bi)
+        ctx.ob(p + 'h init-slots-written-in-a-fixed-order', 'K2-loop-order', b.path,
+               'the slots of a freshly initialised table are written in an order fixed by the program (the table header, whose fill mark makes the table count as initialised, last), not in hash-map order',
+               ok, '' if ok else 'the adaptor walks the hash map of planned slots directly: the header slot may be written first', b.loc(bi))
     for lp in loops[:1]:
         ok = loop_iterates_ordered(b, lp)
         ctx.ob(p + 'h init-slots-written-in-a-fixed-order', 'K2-loop-order', b.path,
@@ -1489,7 +1513,9 @@ def lazily_created_files_dropped_leniently(ctx, p):
 RECURSION_REVIEWED = [
     # (pattern every member of the recursive group matches, why its depth is bounded by something other than stored, client-grown data)
     (r'^btree::node::Node::\w+$', 'descends one btree level per call: depth = height of the btree (logarithmic in the number of keys, fan-out >= 5)'),
-    (r'^column::HashColumn::(prepare|claim)_\w+$', 'walks the NewNode value the client passed to this very commit call, on the client thread: depth = nesting of an in-memory value the caller built (and will drop) recursively itself'),
+    # (the NewNode walk of a commit call - prepare_* / claim_* - was on this list as "depth = nesting of a value the caller built and will
+    # drop recursively itself"; the fourth-round hunt C10 measured it: the walk needs 4-8 times the stack of the recursive drop, a chain
+    # the client can build and drop aborts the process in commit - F70, now reported)
 ]
 
 
@@ -1611,6 +1637,11 @@ def free_list_mirror_in_step(ctx, p):
         b = ctx.body(fn)
         if not b:
             continue
+        # (the stores may sit in a closure of the function: analysed in the body they are in)
+        for cand in lib.bodies_of(F, fn):
+            if any(bi in cand.normal_blocks() and call_matches(t, lib.ATOMIC_STORE) and '.ValueTable.last_removed' in lib.receiver_fields(cand, t, 0) for bi, t in cand.calls()):
+                b = cand
+                break
         stores = [bi for bi, t in b.calls() if bi in b.normal_blocks() and call_matches(t, lib.ATOMIC_STORE) and '.ValueTable.last_removed' in lib.receiver_fields(b, t, 0)]
         ops = [bi for bi, t in b.calls() if bi in b.normal_blocks() and call_matches(t, ['re:^std::vec::Vec::<T(, A)?>::%s$' % op, 're:^alloc::vec::Vec::<T(, A)?>::%s$' % op])
                and '.FreeEntries.stack' in lib.receiver_fields(b, t, 0)]
@@ -1696,7 +1727,9 @@ def removal_planned_in_order(ctx, p):
             seen = set() if seen is None else seen
             for n in names:
                 cb = F.body(n)
-                if cb is None or n in seen or not (n.startswith(wp.path + '::{closure') or '{closure' in n):
+                # closures of the planner, or a private helper of the change set that computes the bound (`next_removal_position(from)`)
+                helper = n.startswith('db::IndexedChangeSet::') and cb is not None and str(cb.locals[0]) in ('usize', 'std::option::Option<usize>')
+                if cb is None or n in seen or not (n.startswith(wp.path + '::{closure') or '{closure' in n or helper):
                     continue
                 seen.add(n)
                 if reads_pos_here(cb):
